@@ -1,7 +1,11 @@
 import Oracle.Proto
-/-! Oracle suites of property C10 (registered in Oracle/Main.lean through `suites`). -/
+import Oracle.PubSub
+import Oracle.PubSubJudge
+/-! Oracle suites of property C10 (linked into `oracle-c10` through `Oracle/MainC10.lean`). -/
 namespace Oracle.C10
 
-def suites : List (String × Suite) := []
+def suites : List (String × Suite) :=
+  [("pubsub", Oracle.PubSub.model), ("pubsub-spec", Oracle.PubSub.spec), ("pubsub-remote", Oracle.PubSub.remote),
+   ("pubsub-conc-judge", Oracle.PubSubJudge.judge)]
 
 end Oracle.C10
